@@ -130,6 +130,33 @@ def build_general(tier="quick"):
     return pick, path, pairs, [gmeta, pmeta]
 
 
+CFG_H1 = 'SPECIFICATION Spec\nINVARIANT Emit\nCHECK_DEADLOCK FALSE\n'
+
+
+def build_holes(tier="quick"):
+    """The structured-holes universe (Gen_ShapesH): a square with every ordered pair / triple of disjoint holes from a catalogue on the
+    10x10 lattice as receivers, against points, segments, boxes and plugs; answers by PlanarGeneral (Gen_PairsG)."""
+    hdata, hmeta = vlib.cached_tlc("shapesH", "Gen_ShapesH", CFG_H1, workers=1, timeout=900)
+    pick = []
+    n3 = 0
+    for l in open(hdata):
+        sh = json.loads(l)[1]
+        a = 1 if (sh[0] == "poly" and len(sh[2]) == 2) or (sh[0] == "rect" and sh[1] == [1, 1] and sh[2] == [8, 8]) else 0
+        if sh[0] == "poly" and len(sh[2]) == 3:   # every three-hole polygon in the thorough tier, every third one otherwise (by position)
+            n3 += 1
+            a = 1 if (tier == "thorough" or n3 % 3 == 0) else 0
+        pick.append({"s": sh, "a": a})
+    d = os.path.join(vlib.BUILD, "universe")
+    os.makedirs(d, exist_ok=True)
+    text = "".join(json.dumps(s, separators=(",", ":")) + "\n" for s in pick)
+    h = hashlib.sha256(text.encode()).hexdigest()[:16]
+    path = os.path.join(d, "shapesH-%s.ndjson" % h)
+    if not os.path.exists(path):
+        open(path, "w").write(text)
+    pairs, pmeta = vlib.cached_tlc("pairsH-" + h, "Gen_PairsG", CFG_G2, workers=16, timeout=3000, env={"SHAPES": path})
+    return pick, path, pairs, [hmeta, pmeta]
+
+
 if __name__ == "__main__":
     import time
     t = time.time()
